@@ -5,7 +5,8 @@ V=$(cd "$(dirname "$0")/.." && pwd)
 IDS=${@:-$(python3 -c "import json;print(' '.join(c['property_id'] for c in json.load(open('$V/MANIFEST.json'))['checks']))")}
 for id in $IDS; do
   s=$(date +%s)
-  out=$("$V/scripts/check.sh" $id $TIER 2>&1); rc=$?
+  CMD=$(python3 -c "import json;m=json.load(open('$V/MANIFEST.json'));c=[c for c in m['checks'] if c['property_id']=='$id'][0];print(c['quick_cmd'] if '$TIER'=='quick' else c['thorough_cmd'])")
+  out=$(cd "$V" && $CMD 2>&1); rc=$?
   e=$(date +%s)
   echo "$id rc=$rc t=$((e-s))s $(echo "$out" | grep -c '^VIOLATION') viol | $(echo "$out" | grep '^SUMMARY' | cut -c1-200)"
   echo "$out" | grep '^VIOLATION' | head -3 | cut -c1-300
